@@ -10,6 +10,7 @@ oracle:         implementation only: sum of all node forces zero; a single cell 
 import random, json, math
 import vlib, tissue, contact_common as cc
 from contact_common import R
+from vlib import hx
 
 LEVEL = "proof"
 
@@ -183,6 +184,42 @@ def _threads_runs(ck, impl, piles, nrep, fails):
     return nrun
 
 
+def history_stage(ck, rng, fails):
+    """a SECOND contact phase on the same contact-model object: after the first phase coupled the facing nodes, cells are moved
+    (out of range, or a little) and the curvature of a random half of the nodes is raised above the coupling threshold; whatever
+    the first phase recorded, the couplings and forces that exist after the second one obey the ranges on the CURRENT geometry"""
+    n = 10 if ck.tier == "quick" else 120
+    cases = []
+    for _ in range(n):
+        lvl = rng.choice([1, 1, 2]); edge = 2 * cc.R * math.sin(math.radians(31.7)) / (2 ** lvl)
+        cut = edge * rng.choice([0.5, 1.0]); nc = rng.choice([2, 2, 3]); gap = rng.choice([0.2, 0.5]) * cut
+        cells = [cc.sphere(lvl, cc.R, (i * (2 * cc.R + gap), 0.0, 0.0), rng) for i in range(nc)]
+        c = dict(kind="history", place="origin", classes=[0] * nc, cells=cells, lmin=edge * 0.8, cut_adh=cut, cut_rep=cut * rng.choice([1.0, 0.7]), ids=list(range(nc)), level=lvl)
+        far = rng.random() < 0.7
+        moves = [(i, 0.0, (25 * cc.R if far else 0.4 * cut) * (1 if i % 2 else 0), 0.0) for i in range(nc) if i % 2]
+        curv = [(i, k, 2.5e7 * rng.choice([4.0, 1e3])) for i in range(nc) for k in range(len(cells[i][0])) if rng.random() < 0.5]
+        base = cc.case_line(c)
+        head = base[:base.rindex(" CT ")]
+        c["line2"] = head + " CT2 1 %d %s %d %s %d %s" % (nc, " ".join(str(i) for i in c["ids"]), len(moves), " ".join("%d %s %s %s" % (m[0], hx(m[1]), hx(m[2]), hx(m[3])) for m in moves),
+                                                          len(curv), " ".join("%d %d %s" % (a, b, hx(v)) for a, b, v in curv))
+        cases.append(c)
+    impl = vlib.build_driver("contact", contact=1)
+    outs, crashes = vlib.run_lines_resilient([impl], [c["line2"] for c in cases], timeout=1800, env={"OMP_NUM_THREADS": "1"})
+    ncpl1 = 0; ncpl2 = 0
+    for c, o in zip(cases, outs):
+        if o is None or o.startswith("FATAL") or " # IN2 " not in o:
+            fails.append((None, "contact_phase_completes", "the second contact phase on the same model object died (%s)" % (o or "")[:200], c)); continue
+        sec = o.split(" # ")
+        out1 = cc.parse_state(sec[3]); ncpl1 += sum(1 for cell in out1 for nd in cell if nd[2])
+        i2 = [k for k, x in enumerate(sec) if x.startswith("IN2 ")][0]
+        inp2 = cc.parse_in(sec[i2]); out2 = cc.parse_state(sec[i2 + 1]); ncpl2 += sum(1 for cell in out2 for nd in cell if nd[2])
+        f = oracle(c, inp2, out2)
+        if f:
+            fails.append((None, f.split(" ")[0], f + " [second phase on the same model object; the first phase had coupled %d nodes]" % sum(1 for cell in out1 for nd in cell if nd[2]), c))
+    ck.notes["second_phase_histories"] = dict(cases=len(cases), couplings_after_first_phase=ncpl1, couplings_after_second_phase=ncpl2)
+    return len(cases)
+
+
 def run(ck):
     ntis, nprobe, nsingle = (24, 60, 10) if ck.tier == "quick" else (300, 1500, 100)
     ck.cov["rule"] = ("generated tissues (as C06) plus probes: a tiny tetrahedron at signed distances -3..3 cut-offs from a face centre of a large icosphere, class pairs epithelial/lumen/ECM/nucleus/static in both roles, three placements; single cells of arbitrary id, spherical and dented through themselves; default contact model, single thread, plus piles of 8-16 mutually interpenetrating cells run repeatedly with 16 threads (same oracle: no net force, ranges, signs); non-trivial = cases with a force or a coupling")
@@ -206,6 +243,7 @@ def run(ck):
             fails.append((i, f.split(" ")[0], f))
         lines.append(cc.model_line(c, sec[0], sec[1])); idx.append(i)
     nthr = threads_stage(ck, rng, tfails := [])
+    nhist = history_stage(ck, random.Random(ck.seed * 7331 + 8), hfails := [])
     mo = cc.run_model(lines) if lines else []
     for i, l in zip(idx, mo):
         ms = l.split(" # ")
@@ -214,7 +252,7 @@ def run(ck):
         d = cc.same_state(parsed[i][1], cc.parse_state(ms[1]))
         if d:
             broken.append((i, d))
-    ck.cov["evaluations"] = len(cases) + nthr
+    ck.cov["evaluations"] = len(cases) + nthr + nhist
     ck.notes["runs_with_16_threads"] = nthr
     ck.cov["distinct_nontrivial"] = nontriv
     ck.cov["traces_validated_against_impl"] = len(lines) - len(broken)
@@ -227,6 +265,11 @@ def run(ck):
             continue
         seen.add(key)
         ck.report(dict(input=cc.case_line(cases[i]), kind=cases[i]["kind"], probe=cases[i].get("probe")), oracle=key, key="contact:" + key, what=what)
+    for _, key, what, ch in hfails:
+        if key in seen:
+            continue
+        seen.add(key)
+        ck.report(dict(input=ch["line2"], kind="history"), oracle=key, key="contact:" + key, what=what)
     for _, key, what, c16 in tfails:
         if key in seen:
             continue
